@@ -596,6 +596,7 @@ pub fn exec(case: &Value, tag: &str) -> Value {
             }
         }
         let res = run.exec_op(i, op);
+        if let (Some(f), true) = (&fault, res.get("err").is_some()) { if installed { run.ctx = format!("{}:fault@{}", name, fault_desc(f)); } }
         let mut lock_ok = true;
         if st < run.stores.len() { lock_ok = run.lock_check(st); }
         if installed && lock_ok {
